@@ -1,0 +1,49 @@
+//! Hooks for the compiler/VM correspondence check: a dump of the bytecode the
+//! compiler produced and a canonical rendering of result values.
+use crate::Context;
+use crate::value::{FunctionReference, Value};
+
+/// Constants, struct table, chunks (instruction by instruction) and global slots.
+pub fn disassembly(ctx: &Context) -> String {
+    ctx.interpreter.verif_dump()
+}
+
+/// Canonical, formatting-independent rendering of a value.
+pub fn value_repr(v: &Value) -> String {
+    match v {
+        Value::Quantity(q) => {
+            let x = q.unsafe_value().to_f64();
+            let num = if x == x.trunc() && x.abs() < 9.0e15 {
+                format!("{}", x as i64)
+            } else {
+                format!("{x:?}")
+            };
+            if q.unit().is_scalar() {
+                num
+            } else {
+                format!("{num}<{}>", q.unit())
+            }
+        }
+        Value::Boolean(b) => format!("{b}"),
+        Value::String(s) => format!("\"{s}\""),
+        Value::DateTime(dt) => format!("dt<{dt}>"),
+        Value::FunctionReference(FunctionReference::Normal(n)) => format!("<fn {n}>"),
+        Value::FunctionReference(FunctionReference::Foreign(n)) => format!("<ffi {n}>"),
+        Value::FunctionReference(FunctionReference::TzConversion(n)) => format!("<tz {n}>"),
+        Value::FormatSpecifiers(_) => "<fmt>".into(),
+        Value::StructInstance(info, vals) => format!(
+            "{}{{{}}}",
+            info.name,
+            info.fields
+                .keys()
+                .zip(vals.iter())
+                .map(|(k, v)| format!("{k}={}", value_repr(v)))
+                .collect::<Vec<_>>()
+                .join(",")
+        ),
+        Value::List(l) => format!(
+            "[{}]",
+            l.iter().map(value_repr).collect::<Vec<_>>().join(",")
+        ),
+    }
+}
